@@ -23,7 +23,8 @@ PID = "C08"
 # kinds judged after the `crash` event of a run (cr = TRUE)
 REAL_KINDS = set(ec.KINDS[PID]) | {"no_progress", "query_panicked"}
 
-QUICK_PLAN = [("rocksdb", "b"), ("rocksdb", "b"), ("rocksdb", "c"), ("fjall", "a")]
+QUICK_PLAN = ([("rocksdb", "b")] * 5 + [("rocksdb", "c")] * 3 + [("rocksdb", "a")] +
+              [("fjall", "a"), ("fjall", "b"), ("fjall", "c")])
 THOROUGH_PLAN = ([("rocksdb", "b")] * 16 + [("rocksdb", "c")] * 8 + [("rocksdb", "a")] * 6 +
                  [("fjall", "a")] * 5 + [("fjall", "c")] * 3 + [("fjall", "b")] * 2)
 
@@ -161,9 +162,10 @@ def real_crash_part(bd_backends, wd, seed, quick, plan=None, extra=None):
     return out, coverage
 
 
-def replay_real(rp):
-    """Replay of a real-crash violation: (1) the recorded run is re-judged by TLC (deterministic);
-    (2) the same kill plan is retried a few times on the current tree (timing dependent)."""
+def replay_real(rp, path="<replay>"):
+    """Replay of a real-crash violation: (1) the recorded run is re-judged by TLC (deterministic, shows
+    what was observed); (2) the same kill plan is retried on the current tree.  The verdict is (2): kill
+    timing is not reproducible exactly, so up to `tries` kills are made."""
     wd = vp.clean_workdir(PID + "-replay-real")
     tr = os.path.join(wd, "recorded.ndjson")
     with open(tr, "w") as f:
@@ -177,7 +179,7 @@ def replay_real(rp):
     bd = vp.build(features="backends")
     run = rp["run"]
     live = 0
-    tries = 6
+    tries = 10
     for i in range(tries):
         t, m = _one_kill(bd, wd, i, run["backend"], run["strategy"], run["seed"], run.get("extra"))
         r2, _ = ec.validate(t, t + ".result.json")
@@ -186,8 +188,15 @@ def replay_real(rp):
             live += 1
             print(f"  retry {i}: {b2[0]['kind']} node={b2[0]['n']} got={b2[0]['got']} want={b2[0]['want']} "
                   f"({m['trigger']})")
-    print(f"current tree: {live} of {tries} retries of the same kill plan violate {PID}")
-    return 1 if (bad or live) else 0
+            if live >= 2:
+                break
+    if live:
+        print(f"VIOLATION property={PID} replay={path}")
+        print(f"  current tree: {live} kill(s) of the same plan violate {PID}")
+        return 1
+    print(f"replay {path}: not reproduced on the current tree in {tries} kills of the same plan "
+          f"(kill timing is not deterministic; the recorded run above is what was observed)")
+    return 0
 
 
 def selftest_real(seed):
